@@ -24,7 +24,7 @@ def need(fx, fid):
 def run(ctx):
     fx = ctx.facts("default")
     order.use_facts(fx)
-    fixtures.run(ctx, ['order', 'lru', 'clear'])
+    fixtures.run(ctx, ['order', 'lru', 'clear', 'lockorder'])
     # recency: every access to an existing entry moves it to the head; list operations run under the index lock
     LM = 'containers::specialized::lru_map::LruMap::<K, V, E>::'
     nt = 0
